@@ -175,7 +175,8 @@ prop(
          "names, 33-60 char table names, enum sets over 255 chars, bad foreign keys, ranges with i32::MIN, unrepresentable widths), drop/insert/update/delete/select/stream "
          "calls with unknown/invalid/reserved names, wrong arity, wrong-typed members of an enumeration, invalid value in first/last batch row, duplicate keys vs existing rows and within the batch, key-collision "
          "updates; each family also in isolation on fresh states; refused calls at the capacity limits (65,537th row carrying a new string, 65,536th pool entry via insert/update, "
-         "create_table whose catalog rows need one string more than the 3 free entries) incl. string accounting of the saved file; eight scenarios on a package whose _Validation table was uncatalogued by hand and reopened; distinct = (family, table count, row-count class); non-trivial = the call returned Err and all three comparisons ran",
+         "create_table whose catalog rows need one string more than the 3 free entries) incl. string accounting of the saved file; eleven scenarios on packages whose catalog was edited by hand and reopened (_Validation or a user table uncatalogued, _Validation's own description narrowed), where a refused call must also leave the "
+         "container's streams (stored name, length) untouched; distinct = (family, table count, row-count class); non-trivial = the call returned Err and all three comparisons ran",
     level_text="The monitor only binds calls that actually returned Err; for those it compares the complete API snapshot, the snapshot after flush+reopen, and the "
                "independent decoder's string accounting (no pool entry, catalog row or text of the rejected call may exist).",
     level_note="A call the generator meant to be invalid but the library accepts is counted (unexpected_ok) and left to C06/C07.",
@@ -206,7 +207,7 @@ prop(
     rule="all strings up to length 5-7 over per-category adversarial alphabets (identifier/property/cabinet, version, language, upper/lower), signed/zero-padded integer "
          "texts around the 16/32-bit limits, a GUID with every position mutated, widths at w-1/w/w+1 with multi-byte characters, integers within +-2 of every boundary and "
          "declared bound, random Unicode strings; then ~26k inserts + ~20k updates on a live package, every gate both in the creating session and after save + reopen, single-value ranges, updates assigning the column twice "
-         "(one value invalid, either order), rows holding the candidate string twice (free column + tested column), directed library-built language lists and UUIDs, arity 0..33; distinct = (category, verdict, length, character-class mask) "
+         "(one value invalid, either order), rows holding the candidate string twice (free column + tested column), columns with a category AND an enumeration, invalid updates that select no row, directed library-built language lists and UUIDs, arity 0..33; distinct = (category, verdict, length, character-class mask) "
          "resp. (column shape, value shape); non-trivial = library and reference were both evaluated",
     level_text="Both Category::validate / Column::is_valid_value and the Ok/Err of insert_rows / update_rows are compared with a predicate written from the documentation; "
                "spots the documentation leaves open are marked Unspecified and accept either answer.",
@@ -302,7 +303,7 @@ prop(
     rule="18 scripts (create+insert, update+delete, drop table, 70 KB stream, summary change, code-page change, 70 KB string, reopen-then-modify, 600-row batch, two tables "
          "sharing strings, removal of a directory entry with two children (table / stream), four scripts with the fault plan armed BEFORE Package::open (then summary edit / insert / "
          "insert with a 2,600-entry pool / read everything), read-everything under armed faults, Package::create itself) first run fault-free to count their I/O calls, then re-run once per (call kind, index k, transient|persistent); quick: write "
-         "indices at stride 1 (5 for >1500-write scripts, 37 for Package::create), reads/seeks at stride 3 (stride 1 for the open-under-faults and read-back scripts); thorough: every index; a read that returns Ok under a fault must return the file's content; distinct = (script, fault kind, persistence, "
+         "indices at stride 1 (5 for >1500-write scripts, 37 for Package::create), reads/seeks at stride 3 (stride 1 for the open-under-faults and read-back scripts); thorough: every index; a read that returns Ok under a fault must return the file's content; after a reported failure the harness retries flush twice and drops (no panic allowed); distinct = (script, fault kind, persistence, "
          "fault site = innermost msi:: / cfb:: frames at injection); non-trivial = the armed fault actually fired",
     level_text="Complete enumeration of single fault points over the scripts' I/O traces. A run in which some call returned Err carries no state obligation (only 'no panic'); "
                "a run in which everything returned Ok must reopen to the fault-free result.",
@@ -318,7 +319,7 @@ prop(
     technique="boundary runtime monitor: panic supervisor + 'Err changed nothing' snapshot + 'Ok reopens identically' close-point check at L-1, L, L+1 of every capacity limit, approached in three ways",
     rule="limits: 32 columns; 65,536 rows per table; 65,535 string-pool entries with two-byte references; 31 UTF-16 units of stored stream/table name; 32/64-character catalog "
          "widths for table and column names; each approached (a) in one batch, (b) incrementally over several calls with reopen in between, (c) again after deletions freed "
-         "capacity, (d) create_table at a nearly full pool, sessions that only lower reference counts, reference-count overflow, an existing string after a freed entry, null / empty-string "
+         "capacity, (d) create_table at a nearly full pool, sessions that only lower reference counts, reference-count overflow, an existing string after a freed entry, drop_table giving capacity back, null / empty-string "
          "updates at a full pool, the row limits of _Columns and _Validation, cells of 65,534..131,071 bytes; a refused step must also leave the saved file's string accounting intact; distinct = (limit, approach, step); non-trivial = the boundary step executed and all three oracles ran",
     level_text="Directed boundary scenarios on the real library: every step that must succeed is required to succeed and to reopen identically, every step beyond a limit must "
                "return Err, leave live and reopened state unchanged, and never panic or save a file the library then refuses.",
